@@ -53,4 +53,25 @@ def init (l0 : Nat) : St := { cell := some l0, nlocks := l0 }
 def inCrit (s : St) (k : Nat) : Nat :=
   ((List.range k).filter fun i => match s.pcs i with | .crit _ => true | _ => false).length
 
+/-! HOW the lock is taken.  `run` models `with lock:` / a blocking `lock.acquire()`: a thread that finds its lock taken does not move.
+    A timed acquire whose result only decides whether to release,
+
+        acquired = lock.acquire(timeout=t)
+        try: <critical section>
+        finally:
+            if acquired: lock.release()
+
+    has a second outcome when the lock is taken: the time-out fires (`fire = true`; the holder may be parked for any length of time) and
+    the thread enters the critical section WITHOUT a lock - written `.crit 0` (lock objects are numbered from 1; leaving `.crit 0`
+    releases nothing: `held.erase 0` leaves `held` as it is). -/
+def runT (s : St) (i : Nat) (fire : Bool) : St :=
+  match s.pcs i with
+  | .ref l =>
+    if s.held.contains l && fire then { s with pcs := fun j => if j = i then .crit 0 else s.pcs j } else run s i
+  | _ => run s i
+
+def execT : St → List (Nat × Bool) → St
+  | s, [] => s
+  | s, (i, fire) :: rest => execT (runT s i fire) rest
+
 end Ll
